@@ -381,7 +381,8 @@ func (s *scanner) readStructuredComment() (key, value string, err error) {
 	// Read key
 	key, err = s.readCommentKey()
 	if err != nil {
-		s.SkipToEOL()
+		// not a structured comment after all: skip it like any other comment
+		s.skipToCommentEnd()
 		return
 	}
 
@@ -468,7 +469,12 @@ func (s *scanner) SkipComment() {
 	if err != nil {
 		return
 	}
-	// A comment ends at the next newline or form feed (PLRM section 3.2.2).
+	s.skipToCommentEnd()
+}
+
+// skipToCommentEnd skips to the end of a comment: the next newline or form
+// feed (PLRM section 3.2.2).
+func (s *scanner) skipToCommentEnd() {
 	for {
 		b, err := s.Next()
 		if err != nil {
